@@ -7,6 +7,7 @@
   the generated tables (an `Origin` object is represented by its index in `origins`).
 -/
 import A5.Model.Basic
+import A5.Model.Hex
 
 namespace A5.Py
 
@@ -72,6 +73,18 @@ def range2 (a b : Int) : List Int := (List.range (b - a).toNat).map fun (k : Nat
 
 /-- `[x] * n` -/
 def replicate {α : Type} (n : Int) (x : α) : List α := List.replicate n.toNat x
+
+/-- `hex(n)`: `0x…` / `-0x…`, lower case, no padding (digits from the model of the builtin in A5/Model/Hex.lean) -/
+def hex (n : Int) : String :=
+  if n ≥ 0 then String.ofList ('0' :: 'x' :: u64ToHexChars n.toNat)
+  else String.ofList ('-' :: '0' :: 'x' :: u64ToHexChars (-n).toNat)
+
+/-- `s[k:]` for a literal `k ≥ 0` -/
+def strFrom (s : String) (k : Nat) : String := String.ofList (s.toList.drop k)
+
+/-- `int(s, base)`; only base 16 occurs in the translated code (the grammar is the model of the builtin in A5/Model/Hex.lean) -/
+def intOfStr (s : String) (base : Int) : PyM Int :=
+  if base = 16 then hexToU64 s else .error .other
 
 /-- insertion into a list of (key, value) pairs kept ascending in the key; a value already present is dropped (`set`) -/
 def insertKV (kx : Int × Int) : List (Int × Int) → List (Int × Int)
